@@ -198,6 +198,10 @@ def run(tier):
     tool_cases(ck, rnd, tier, bd, wd, trace, owner)
     validate_segments(ck, "C01", trace, owner, wd, scripts_by={m[0]: (scripts[i], "writer %s" % m[0], [os.path.join(wd, m[0] + ".in")]) for i, m in enumerate(meta)},
                       module="Trace_Writer", cfg="Trace_Writer.cfg", start_ops=("wstart",))
+    # the real writer with every allocation of zchunk's own code refused in turn (once / from there on), judged by WClose
+    from .. import allocfault
+    atrace, aowner, ascripts = allocfault.writer_family(ck, tier, wd, rnd)
+    validate_segments(ck, "C01", atrace, aowner, wd, scripts_by=ascripts, module="Trace_Writer", cfg="Trace_Writer.cfg", start_ops=("wstart",))
     if not ck.violations:
         neg = [{"op": "wstart"}, {"op": "write", "n": 5, "ret": 5}, {"op": "wclose", "ret": 1, "f": {"valid": True, "contentEq": False, "total": 4, "cutsOk": True}}]
         p = os.path.join(wd, "neg.ndjson"); common.write_ndjson(p, neg)
@@ -240,7 +244,11 @@ def tool_cases(ck, rnd, tier, bd, wd, trace, owner):
         if rnd.random() < 0.3: args += ["-h", rnd.choice(["sha256", "sha512", "sha512_128"])]
         usedict = rnd.random() < 0.2
         cap = rnd.choice([1, 2, 3, 5, 7]) if kind == "capped" else 0
-        closefd0 = rnd.random() < 0.2
+        # which standard descriptors the tools are started without (both zck and unzck), and whether the files they are
+        # about to create already exist with other, longer contents (an earlier, larger version)
+        closefd0 = rnd.choice([(), (), (), (0,), (1,), (0, 1), (0, 1, 2), (2,)]) if i % 2 else ()
+        if i % 5 == 3:
+            closefd0 = closefd0 + ("stale",)
         jobs.append((i, D, args, usedict, cap, closefd0))
     # systematic: a prefix of the split string straddling a 32 KiB block edge with k bytes before and j bytes
     # after it, then broken (or completed), at the first and second edge
@@ -255,7 +263,7 @@ def tool_cases(ck, rnd, tier, bd, wd, trace, owner):
                     if k + jj < len(sp):
                         base[edge - k + len(part)] = ord("#")
                     for mode in ([], ["-m"]) if (k + jj) % 2 == 0 else ([],):
-                        jobs.append((i, bytes(base), ["-s", sp.decode()] + mode, False, 0, False)); i += 1
+                        jobs.append((i, bytes(base), ["-s", sp.decode()] + mode, False, 0, ())); i += 1
     def work(j):
         i, D, args, usedict, cap, closefd0 = j
         d = os.path.join(wd, "tool%d" % i); os.makedirs(d, exist_ok=True)
@@ -268,7 +276,10 @@ def tool_cases(ck, rnd, tier, bd, wd, trace, owner):
         env = dict(os.environ)
         if cap:
             env["ZV_ROLES"] = "in=input.bin"; env["ZV_CAP_in"] = str(cap)
-        pre = (lambda: os.close(0)) if closefd0 else None
+        fdc = [x for x in closefd0 if x != "stale"]
+        pre = (lambda: [os.close(x) for x in fdc]) if fdc else None
+        if "stale" in closefd0:
+            open(outp, "wb").write(corpus.rand(random.Random(i), len(D) + 70000))
         try:
             p = subprocess.run(a, stdout=subprocess.PIPE, stderr=subprocess.PIPE, env=env, timeout=120, cwd=d, preexec_fn=pre)
             zs = p.returncode
@@ -279,8 +290,10 @@ def tool_cases(ck, rnd, tier, bd, wd, trace, owner):
         f = {"valid": bool(rf.valid_strict), "contentEq": rf.content is not None and rf.content == D}
         us = 1; oeq = False
         if zs == 0:
+            if "stale" in closefd0:
+                open(inp, "wb").write(D + corpus.rand(random.Random(i), 5000))
             try:
-                q = subprocess.run([unzck, "input.bin.zck"], stdout=subprocess.PIPE, stderr=subprocess.PIPE, timeout=120, cwd=os.path.join(d))
+                q = subprocess.run([unzck, "input.bin.zck"], stdout=subprocess.PIPE, stderr=subprocess.PIPE, timeout=120, cwd=os.path.join(d), preexec_fn=pre)
                 us = q.returncode
             except subprocess.TimeoutExpired:
                 return (j, "Hang", None, None, None)
@@ -293,7 +306,7 @@ def tool_cases(ck, rnd, tier, bd, wd, trace, owner):
     for (j, kind, zs, f, u) in res:
         i, D, args, usedict, cap, closefd0 = j
         cid = "tool%d" % i
-        trace.append({"op": "wstart", "case": cid, "args": args, "len": len(D), "cap": cap, "closefd0": closefd0}); owner.append(cid)
+        trace.append({"op": "wstart", "case": cid, "args": args, "len": len(D), "cap": cap, "closefd0": [str(x) for x in closefd0]}); owner.append(cid)
         if kind == "Hang":
             trace.append({"op": "Hang", "tool": "zck/unzck"}); owner.append(cid)
         elif zs < 0 or zs in (134, 139):
